@@ -119,3 +119,20 @@ func VerifH_c19_siv() {
 	verifrt.Assert(!verifrt.SameArray(got, cbuf), "plaintext shares no memory with the input")
 	verifrt.Reach("end")
 }
+
+func VerifH_c18_siv() {
+	verifrt.EngineOnly()
+	s, _ := NewAESSIV(verifrt.Bytes("key", 64))
+	n := verifrt.Freeze(s, "state shared between concurrent calls (AES-SIV primitive)")
+	verifrt.Assert(n > 0, "the primitive has state to freeze")
+	pt := verifrt.Bytes("pt", verifrt.Choice("n", 18))
+	ad := verifrt.Bytes("ad", 1)
+	c1, e1 := s.EncryptDeterministically(pt, ad)
+	c2, e2 := s.EncryptDeterministically(pt, ad)
+	verifrt.Assert(e1 == nil && e2 == nil, "encrypt succeeds")
+	verifrt.AssertEq(c1, c2, "deterministic across calls")
+	p1, e3 := s.DecryptDeterministically(c1, ad)
+	verifrt.Assert(e3 == nil, "decrypt succeeds")
+	verifrt.AssertEq(p1, pt, "round trip")
+	verifrt.Reach("shared-ok")
+}
